@@ -447,6 +447,29 @@ def gen_all(repo):
         G.define('gen_%s_calls' % short, '(ob ib W M K N : nat)', 'list (nat * nat * nat * nat * bool)', block_fn(rel, hdr, 'calls', cre),
                  '%s: %s, kernel call sites in source order (0 vector / 1 scalar / 2 masked, unrollOuterloop, numSIMDRows, numSIMDCols, tags passed)' % (rel, short))
 
+    # ---- matmul_mk_smalln.h: which overload serves which N, and its row unrolling
+    def smalln():
+        txt = G.src('backend/matmul/matmul_mk_smalln.h')
+        items = []
+        for m in re.finditer(r'void\s+_matmul_mk_smalln\s*\(', txt):
+            head = txt[max(0, m.start() - 700):m.start()]
+            head = head[head.rfind('template'):]
+            mc = re.search(r'enable_if(?:_t_)?\s*<(.*),\s*bool\s*>', head, flags=re.S)
+            if not mc: raise XErr('no enable_if before _matmul_mk_smalln')
+            cond = ' '.join(mc.group(1).split())
+            cond = re.sub(r'(?:internal::)?choose_best_simd_type\s*<\s*SIMDVector<T,DEFAULT_ABI>\s*,\s*N\s*>::type::Size', 'W', cond)
+            cond = re.sub(r'is_less\s*<\s*N\s*,\s*([^>]+)>::value', r'(N < (\1))', cond)
+            cond = re.sub(r'is_greater\s*<\s*N\s*,\s*([^>]+)>::value', r'(N > (\1))', cond)
+            ct, so = translate(cond, NAT, {'N': ('N', 'n'), 'W': ('W', 'n')}, ())
+            i = txt.index('{', m.end()); j = match_close(txt, i); body = txt[i + 1:j]
+            ds = dict(decls_of(body, True))
+            if 'unrollOuterloop' not in ds:
+                items.append('(%s, (0, 0))' % ct); continue         # the overload for N > 5*V::Size forwards to the base kernel
+            lets, env = let_chain([(n_, ds[n_]) for n_ in ('unrollOuterloop', 'M0')], NAT, {'M': ('M', 'n')}, (), None)
+            items.append('(%s, (%s (v_unrollOuterloop, v_M0)))' % (ct, ' '.join(lets)))
+        return '[' + (';' + NL).join(items) + ']'
+    G.define('gen_smalln_overloads', '(W M N : nat)', 'list (bool * (nat * nat))', smalln,
+             'backend/matmul/matmul_mk_smalln.h: the overloads of _matmul_mk_smalln in source order: (enable_if condition on N and the vector width, (rows unrolled, M0))')
     # ---- Ranges.h ----------------------------------------------------------------------------------
     envr = {'first': ('f', 'n'), 'last': ('l', 'n'), 'step': ('s', 'n'), '_first': ('f', 'n'), '_last': ('l', 'n'), '_step': ('s', 'n'),
             'F': ('f', 'n'), 'L': ('l', 'n'), 'S': ('s', 'n'), 'N': ('n', 'n')}
